@@ -76,6 +76,30 @@ def gen(rng, k):
     return L
 
 
+def gen_move(rng, k):
+    """an accepted socket is moved into a new object (as a session object would do) and then closed or destroyed;
+    a client socket and an acceptor are moved too.  The acceptor keeps its binding: a probe bind of its port is
+    refused and a second client is still accepted"""
+    r = rng
+    net = Net(r, nnodes=2)
+    L = list(net.lines)
+    port = r.choice([5000, 6000])
+    ops = ["acc_new 1 1", "tcp_open 1 1", "tcp_bind 1 0 0 %d" % port, "listen 1 10", "tcp_new 10 1", "accept 1 10 0 100",
+           "tcp_new 20 2", "tcp_connect 20 0 %d %d 101" % (A1, port)]
+    H = {100: ["tcp_lep 10", "tcp_move 10", "tcp_lep 10", r.choice(["tcp_close 10", "tcp_destroy 10", "tcp_close 10"]),
+               "tcp_new 30 1", "tcp_open 30 1", "tcp_bind 30 0 %d %d" % (A1, port), "tcp_lep 1",
+               "tcp_new 11 1", "accept 1 11 0 102", "tcp_new 21 2", "tcp_connect 21 0 %d %d 103" % (A1, port)],
+         101: ["tcp_move 20", "tcp_lep 20"],
+         102: ["tcp_lep 11"]}
+    if r.random() < 0.5:
+        H[100].insert(0, "tcp_move 10")
+    L += ["M " + o for o in ops]
+    for h in sorted(H):
+        L += ["H %d %s" % (h, o) for o in H[h]]
+    L.append("M run")
+    return L
+
+
 def gen_wrap(rng, k):
     """drive the shared ephemeral-port counter to its wrap-around with one protocol, then
     take ports with both"""
@@ -98,6 +122,7 @@ def generate(rng, tier):
     n = 250 if tier == "quick" else 5000
     out = [("r%d" % k, gen(rng, k)) for k in range(n)]
     out += [("w%d" % k, gen_wrap(rng, k)) for k in range(2 if tier == "quick" else 12)]
+    out += [("mv%d" % k, gen_move(rng, k)) for k in range(6 if tier == "quick" else 100)]
     return out
 
 
@@ -107,6 +132,13 @@ def oracle(lines, trace):
         return [("c11/crash", bad)]
     fails = []
     ev, comp = timeline(lines, trace)
+    if any(" tcp_move " in l for l in lines):
+        for e in ev:
+            if e["op"][0] == "tcp_bind" and e["op"][1] == "30" and e["ret"] and e["ret"][0] != 7:
+                fails.append(("c11/acceptor-unbound", "after an accepted socket was moved and closed, binding the acceptor's port gave %d, not address_in_use" % e["ret"][0]))
+        if 103 in comp and comp[103][1][0] != 0:
+            fails.append(("c11/acceptor-unbound", "after an accepted socket was moved and closed, a connect to the acceptor completed with %d" % comp[103][1][0]))
+        return fails
     nodes = {}
     for l in lines:
         t = l.split()
